@@ -918,8 +918,10 @@ outer:
 				if rn == '{' {
 					buf.Reset()
 					for {
-						rn, _, _ := r.ReadRune()
-						if rn == '}' {
+						rn, _, err := r.ReadRune()
+						if err != nil || rn == '}' {
+							// err: the class is not terminated (the front-end
+							// has already reported it), do not loop forever
 							break
 						}
 						buf.WriteRune(rn)
